@@ -298,6 +298,9 @@ impl Buffer {
                 frame.layers.push(l.clone());
             }
         } else {
+            // a cell the stack shows with an unresolved TRANSPARENT_COLOR must read back as it is: an opaque
+            // layer would resolve it against a default cell
+            frame.layers[0].properties.has_alpha_channel = true;
             for y in 0..self.get_height() {
                 for x in 0..self.get_width() {
                     let mut ch = self.get_char((x, y));
